@@ -169,10 +169,29 @@ impl FileSystem for Bk {
     }
 }
 
+/// what a backend answers to BackendFileSystem::mount (root entry, largest inode)
+pub static mut B_MOUNT: Option<(Entry, u64)> = None;
+pub static mut B_DESTROYED: u32 = 0;
+
 impl BackendFileSystem for Bk {
+    fn mount(&self) -> io::Result<(Entry, u64)> {
+        unsafe {
+            match B_MOUNT {
+                Some(m) => Ok(m),
+                None => Err(io::Error::from_raw_os_error(libc::ENOSYS)),
+            }
+        }
+    }
     fn as_any(&self) -> &dyn Any {
         self
     }
+}
+
+/// PseudoFs::mount (std::path parsing + HashMap of pseudo inodes) is environment for the mount
+/// step: it returns the pseudo inode of the mount path. Stub: a fixed pseudo directory inode.
+pub const PSEUDO_MNT_INO: u64 = 2;
+pub fn stub_pseudo_mount(_fs: &PseudoFs, _path: &str) -> io::Result<u64> {
+    Ok(PSEUDO_MNT_INO)
 }
 
 pub fn any_stat() -> stat64 {
@@ -384,7 +403,14 @@ fn name_x() -> &'static CStr {
 /// exclude the pseudo-fs branch of getattr/lookup/readdirplus, whose HashMap lookup with a
 /// symbolic key does not finish).
 pub fn c07_route_getattr_at(idx: u8, via_setattr: bool) {
-    let vfs = mk_vfs(plain_cfg());
+    c07_route_getattr_cfg(idx, via_setattr, false)
+}
+/// `root_mount`: backend A is additionally mounted on the VFS root; this must not change the routing
+/// of any inode number carrying a mount index (only the pseudo-fs root itself is redirected).
+pub fn c07_route_getattr_cfg(idx: u8, via_setattr: bool, root_mount: bool) {
+    let mut cfg = plain_cfg();
+    cfg.root_mount = root_mount;
+    let vfs = mk_vfs(cfg);
     let (node, ino) = if via_setattr { any_inode_at(idx) } else { (VfsInode::new(idx, 5), 5) };
     let e = any_entry();
     unsafe {
@@ -415,6 +441,8 @@ pub fn c07_route_getattr_at(idx: u8, via_setattr: bool) {
 vh!(c07_route_setattr_a, 8, c07_route_getattr_at(IDX_A, true));
 vh!(c07_route_setattr_b, 8, c07_route_getattr_at(IDX_B, true));
 vh!(c07_route_setattr_vacant, 8, c07_route_getattr_at(IDX_VACANT, true));
+vh!(c07_rootmnt_route_setattr_b, 8, c07_route_getattr_cfg(IDX_B, true, true));
+vh!(c07_rootmnt_route_setattr_vacant, 8, c07_route_getattr_cfg(IDX_VACANT, true, true));
 vh!(c07_route_getattr_a, 8, c07_route_getattr_at(IDX_A, false));
 vh!(c07_route_getattr_vacant, 8, c07_route_getattr_at(IDX_VACANT, false));
 
@@ -828,3 +856,211 @@ vh!(c07_rootmnt_rename_same, 8, c07_root_mount_two_dirs(false, 0, true));
 vh!(c07_rootmnt_rename_other_mount, 8, c07_root_mount_two_dirs(false, 1, true));
 vh!(c07_rootmnt_rename_pseudo_dir, 8, c07_root_mount_two_dirs(false, 2, true));
 vh!(c07_rootmnt_link_same_rev, 8, c07_root_mount_two_dirs(true, 0, false));
+
+
+// ============================================================================ mount steps (C07 / C14)
+macro_rules! mh {
+    ($name:ident, $unwind:expr, $body:expr) => {
+        #[kani::proof]
+        #[kani::unwind($unwind)]
+        #[kani::stub(std::rt::thread_cleanup, noop)]
+        #[kani::stub(std::fmt::format, empty_string)]
+        #[kani::stub(std::hash::RandomState::new, fixed_random_state)]
+        #[kani::stub(crate::api::pseudo_fs::PseudoFs::mount, stub_pseudo_mount)]
+        pub fn $name() {
+            $body
+        }
+    };
+}
+/// same, with Vfs::insert_mount_locked replaced by a recorder (the insertion itself -- HashMap of
+/// mount points -- is checked separately by c14_insert_mount_*)
+macro_rules! mh_rec {
+    ($name:ident, $unwind:expr, $body:expr) => {
+        #[kani::proof]
+        #[kani::unwind($unwind)]
+        #[kani::stub(std::rt::thread_cleanup, noop)]
+        #[kani::stub(std::fmt::format, empty_string)]
+        #[kani::stub(std::hash::RandomState::new, fixed_random_state)]
+        #[kani::stub(crate::api::vfs::Vfs::insert_mount_locked, rec_insert_mount_locked)]
+        pub fn $name() {
+            $body
+        }
+    };
+}
+
+/// set by the native replay wrapper: kani::stub does not exist in a native build, so the real
+/// insert_mount_locked / PseudoFs::mount run there and the recorder assertions are skipped
+pub static mut NATIVE_REPLAY: bool = false;
+pub fn native_replay_init() {
+    unsafe { NATIVE_REPLAY = true };
+}
+pub static mut INS_CALLS: u32 = 0;
+pub static mut INS_IDX: u8 = 0;
+pub static mut INS_ENTRY_INO: u64 = 0;
+/// effective mapping of the allocated slot AT THE TIME the mount is inserted (the insertion
+/// translates and caches the mount root entry with it)
+pub static mut INS_EFF: Option<(u32, u32, u32)> = None;
+pub fn rec_insert_mount_locked(vfs: &Vfs, fs: BackFileSystem, entry: Entry, fs_idx: VfsIndex, _path: &str) -> io::Result<()> {
+    unsafe {
+        INS_CALLS += 1;
+        INS_IDX = fs_idx;
+        INS_ENTRY_INO = entry.inode;
+        INS_EFF = vfs.get_effective_id_mapping(fs_idx);
+    }
+    std::mem::forget(fs);
+    Ok(())
+}
+
+fn table_maps(f: impl Fn(usize) -> Option<(u32, u32, u32)>) -> Vec<Option<(u32, u32, u32)>> {
+    let arr: [Option<(u32, u32, u32)>; TABLE] = [f(0), f(1), f(2), f(3), f(4), f(5), f(6), f(7)];
+    Vec::from(Box::new(arr) as Box<[_]>)
+}
+
+/// ONE Vfs::mount_with_id_mapping step from a state in which the slot about to be allocated
+/// (3, vacant) may still carry ANY per-mount mapping (such states are reachable: an over-mount
+/// vacates a slot without clearing its mapping -- shown natively by findings/c14_slot_reuse_demo.rs).
+pub fn c14_mount_step_body() {
+    let global = any_mapping();
+    let map_a = any_mapping();
+    let stale = any_mapping();
+    let vfs = mk_vfs(VfsCfg { global, map_a, map_b: None, root_mount: false, opts: VfsOptions::default(), with_pseudo: false });
+    vfs.next_super.store(IDX_VACANT, std::sync::atomic::Ordering::SeqCst);
+    vfs.mount_id_mappings.store(Arc::new(table_maps(|i| if i == IDX_A as usize { map_a } else if i == IDX_VACANT as usize { stale } else { None })));
+    let mut root = Entry::default();
+    root.inode = kani::any();
+    kani::assume(root.inode <= VFS_MAX_INO);
+    let max_ino: u64 = kani::any();
+    unsafe {
+        B_MOUNT = Some((root, max_ino));
+        INS_CALLS = 0;
+    }
+    let own = any_mapping();
+    let r = vfs.mount_with_id_mapping(Box::new(Bk { id: IDX_VACANT }), "/x", own);
+    let want = if own.is_some() { own } else { global };
+    unsafe {
+        if max_ino > VFS_MAX_INO {
+            assert!(r.is_err() && INS_CALLS == 0, "[C07] a backend whose inode numbers do not fit 56 bits is not mounted");
+        } else {
+            assert!(matches!(r, Ok(i) if i == IDX_VACANT), "[C07] the new mount gets the next vacant index");
+            assert!(vfs.get_effective_id_mapping(IDX_VACANT) == want,
+                "[C14] a mount uses its own mapping if it was given one and the global mapping otherwise, regardless of which mounts previously occupied its slot");
+            if !NATIVE_REPLAY {
+                assert!(INS_CALLS == 1 && INS_IDX == IDX_VACANT && INS_ENTRY_INO == root.inode, "[C07] the backend is inserted once, at the allocated index, with its own root entry");
+                assert!(INS_EFF == want, "[C14] the mount root is translated with the mount's own mapping if it was given one and the global mapping otherwise (mapping recorded before insertion; no inheritance from a previous occupant of the slot)");
+            }
+            assert!(vfs.mount_id_mappings.load()[IDX_B as usize].is_none() && vfs.mount_id_mappings.load()[IDX_A as usize] == map_a, "[C14] mappings of other slots are untouched by a mount");
+        }
+    }
+    kani::cover!(max_ino <= VFS_MAX_INO && stale.is_some() && own.is_none(), "slot with a stale mapping re-used by a mapping-less mount");
+    kani::cover!(max_ino <= VFS_MAX_INO && own.is_some() && global.is_some(), "own mapping overrides the global one");
+    std::mem::forget(r);
+    std::mem::forget(vfs);
+}
+mh_rec!(c14_mount_step, 10, c14_mount_step_body());
+
+/// Vfs::insert_mount_locked itself: registers the backend, vacates the covered filesystem's slot on
+/// an over-mount, and caches the mount root translated with the slot's effective mapping.
+pub fn c14_insert_mount(over: bool) {
+    let global = any_mapping();
+    let own = any_mapping();
+    let vfs = mk_vfs(VfsCfg { global, map_a: None, map_b: None, root_mount: false, opts: VfsOptions::default(), with_pseudo: false });
+    vfs.mount_id_mappings.store(Arc::new(table_maps(|i| if i == IDX_VACANT as usize { own } else { None })));
+    if over {
+        let mut mp: HashMap<u64, Arc<MountPointData>> = HashMap::new();
+        mp.insert(PSEUDO_MNT_INO, Arc::new(MountPointData { fs_idx: IDX_A, ino: 1, root_entry: Entry::default(), _path: String::new() }));
+        vfs.mountpoints.store(Arc::new(mp));
+    }
+    let mut root = Entry::default();
+    root.inode = kani::any();
+    root.attr.st_uid = kani::any();
+    root.attr.st_gid = kani::any();
+    kani::assume(root.inode != 0 && root.inode <= VFS_MAX_INO);
+    let r = vfs.insert_mount_locked(Box::new(Bk { id: IDX_VACANT }), root, IDX_VACANT, "/x");
+    assert!(r.is_ok(), "[C07] insertion succeeds");
+    let sb = vfs.superblocks.load();
+    assert!(sb[IDX_VACANT as usize].is_some() && sb[IDX_B as usize].is_some(), "[C07] the new backend is registered at its index; other mounts stay");
+    assert!(sb[IDX_A as usize].is_some() == !over, "[C07] an over-mount vacates exactly the slot of the filesystem it covers");
+    let mps = vfs.mountpoints.load();
+    let mnt = mps.get(&PSEUDO_MNT_INO).unwrap();
+    assert!(mnt.fs_idx == IDX_VACANT && mnt.ino == root.inode, "[C07] the mount point leads to the new mount's root inode");
+    let want = if own.is_some() { own } else { global };
+    let (wu, wg) = match want {
+        Some((i, e, n)) => (spec_remap(root.attr.st_uid, i, e, n), spec_remap(root.attr.st_gid, i, e, n)),
+        None => (root.attr.st_uid, root.attr.st_gid),
+    };
+    assert!(mnt.root_entry.attr.st_uid == wu && mnt.root_entry.attr.st_gid == wg, "[C14] owner ids of a mount root are translated internal->external with the mount's effective mapping");
+    assert!(mnt.root_entry.inode == u64::from(VfsInode::new(IDX_VACANT, root.inode)) && mnt.root_entry.attr.st_ino == mnt.root_entry.inode,
+        "[C07] the mount root is numbered (index, backend root inode)");
+    kani::cover!(own.is_some(), "own mapping");
+    std::mem::forget(r);
+    std::mem::forget(vfs);
+}
+mh!(c14_insert_mount_fresh, 10, c14_insert_mount(false));
+mh!(c14_insert_mount_over, 10, c14_insert_mount(true));
+
+/// allocate_fs_idx as one step across the wrap-around: allocator at 253, full 256-entry table,
+/// symbolic occupancy of the slots 253,254,255,1,2,3,4 (5 is vacant): the index returned is the
+/// first vacant slot in allocation order, never the pseudo-fs index 0, never an occupied slot.
+pub fn c07_allocate_idx_body() {
+    let fs: Arc<BackFileSystem> = Arc::new(Box::new(Bk { id: 9 }));
+    let occ: [bool; 7] = kani::any();
+    let order: [usize; 7] = [253, 254, 255, 1, 2, 3, 4];
+    let mut sb: Vec<Option<Arc<BackFileSystem>>> = vec![None; MAX_VFS_INDEX];
+    let mut i = 0;
+    while i < 7 {
+        if occ[i] {
+            sb[order[i]] = Some(fs.clone());
+        }
+        i += 1;
+    }
+    let vfs = mk_vfs(plain_cfg());
+    vfs.superblocks.store(Arc::new(sb));
+    vfs.next_super.store(253, std::sync::atomic::Ordering::SeqCst);
+    let r = vfs.allocate_fs_idx();
+    let idx = match r {
+        Ok(i) => i as usize,
+        Err(_) => 1000,
+    };
+    assert!(idx != 1000, "[C07] allocation succeeds while a slot is vacant");
+    assert!(idx != VFS_PSEUDO_FS_IDX as usize, "[C07] index 0 (pseudo fs) is never handed to a mount");
+    let mut want = 5;
+    let mut j = 7;
+    while j > 0 {
+        j -= 1;
+        if !occ[j] {
+            want = order[j];
+        }
+    }
+    assert!(idx == want, "[C07] a new mount gets the first vacant slot in allocation order, never an occupied one");
+    kani::cover!(idx == 5, "wrapped around past the pseudo index and four occupied slots");
+    kani::cover!(idx == 255, "before the wrap");
+    std::mem::forget(r);
+    std::mem::forget(vfs);
+    std::mem::forget(fs);
+}
+mh!(c07_allocate_idx, 260, c07_allocate_idx_body());
+
+/// cheap sharp instance: under a root mount of A, the inode (B, ROOT_ID) still belongs to B
+pub fn c07_rootmnt_b_ino1_body() {
+    let mut cfg = plain_cfg();
+    cfg.root_mount = true;
+    let vfs = mk_vfs(cfg);
+    unsafe {
+        B_ENTRY = Some(Entry::default());
+        B_ERR = 0;
+    }
+    reset_blog();
+    let ctx = Context { uid: 1, gid: 2, pid: 3 };
+    let r = vfs.access(&ctx, VfsInode::new(IDX_B, ROOT_ID), 0);
+    unsafe {
+        assert!(r.is_ok() && BLOG.calls == 1 && BLOG.who == IDX_B && BLOG.ino == ROOT_ID, "[C07] inode (B, 1) is delivered to backend B also when another backend is mounted on the VFS root");
+    }
+    reset_blog();
+    let r2 = vfs.access(&ctx, VfsInode::new(0, ROOT_ID), 0);
+    unsafe {
+        assert!(r2.is_ok() && BLOG.calls == 1 && BLOG.who == IDX_A && BLOG.ino == 1, "[C07] the VFS root itself is delivered to the root-mounted backend's root inode");
+    }
+    kani::cover!(true, "reached");
+    std::mem::forget(vfs);
+}
+vh!(c07_rootmnt_b_ino1, 8, c07_rootmnt_b_ino1_body());
